@@ -4,7 +4,7 @@ from typing import List
 from vf.harness import H, mk
 
 EXPLANATION = (
-    "For each element template (parsed and DSL-built, holes symbolic) a history of k<=3 symbolic values (accepted or rejected "
+    "For each element template (parsed and DSL-built, holes symbolic) a history of k<=2 symbolic values (each validated twice) (accepted or rejected "
     "as the solver likes) is validated; before the first and after every call a deep structural snapshot of every attribute of "
     "every reachable Element/_Property/class (list and dict contents included), serialize_json, equality with a fresh build, the "
     "input value, and verdict/result repeatability are compared. Text observables (repr, serialize_python) are compared in the "
@@ -85,17 +85,20 @@ def _child(mn):
 def harnesses(ctx) -> List[H]:
     hs: List[H] = []
     for name, (hargs, hpre, make, vt, vpre) in TEMPLATES.items():
-        for k in (2, 3):
+        for k in (1, 2):
             vargs = ", ".join(f"v{i}: {vt}" for i in range(1, k + 1))
             pre = list(hpre) + [vpre.format(f"v{i}") for i in range(1, k + 1)]
+            if k == 2:
+                pre = [x.replace("<= 3", "<= 2") for x in pre]
+                pre.append("len(v2) <= 1" if "Union" not in vt else "not isinstance(v2, dict) or len(v2) <= 1")
             vals = ", ".join(f"v{i}" for i in range(1, k + 1))
             body = f"""
 def make():
     return {make}
 return pure_history(make, [{vals}])
 """
-            hs.append(mk(f"c08_{name}_k{k}", f"{hargs}, {vargs}", pre, body, tier="quick" if k == 2 else "thorough",
-                         timeout=90 if k == 2 else 240, group="history", covers=f"{make} ; history of {k} symbolic values"))
+            hs.append(mk(f"c08_{name}_k{k}", f"{hargs}, {vargs}", pre, body, tier="quick" if k == 1 else "thorough",
+                         timeout=120 if k == 1 else 400, group="history", covers=f"{make} ; history of {k} symbolic values, each validated twice"))
         # reachability twin: an accepted call exists
         body = f"""
 def make():
@@ -108,9 +111,9 @@ return not touched(make, v1)
 mn = m = d = 2
 def make():
     return {make}
-return pure_history(make, [v1, v2], True)
+return pure_history(make, [v1], True)
 """
-        hs.append(mk(f"c08_{name}_text", f"v1: {vt}, v2: {vt}", [vpre.format("v1"), vpre.format("v2")], body,
+        hs.append(mk(f"c08_{name}_text", f"v1: {vt}", [vpre.format("v1")], body,
                      tier="quick", timeout=90, group="text", covers="repr/serialize_python unchanged; holes concrete (=2)"))
     return hs
 
